@@ -3,11 +3,11 @@
 import json, sys, time, os
 verif, tier, t0 = sys.argv[1], sys.argv[2], float(sys.argv[3])
 frags = []
-for fl in ("smallcache", "cap64"):
+for fl in ("smallcache", "cap64", "smallcache-checked"):
     p = os.path.join(verif, "shuttle17", "target", f"evidence-{fl}.json")
     if not os.path.exists(p):
-        if fl == "cap64" and frags and frags[0]["violations"]:
-            continue  # skipped because the first flavour already reported a violation
+        if fl != "smallcache" and frags and any(f["violations"] for f in frags):
+            continue  # skipped because an earlier flavour already reported a violation
         print(f"HARNESS-ERROR: missing evidence fragment {p}", file=sys.stderr); sys.exit(2)
     frags.append(json.load(open(p)))
 seq = None
@@ -32,8 +32,8 @@ doc = {
         "probes": probes,
         "sequential_histories_against_the_real_cache": seq,
         "schedulers": ["shuttle RandomScheduler (seeded)", "shuttle PctScheduler (seeded, depth 2-4)"],
-        "fault_kinds": {"client_crash_inside_plan_generation": probes.get("client_crash_inside_plan_generation", 0), "client_stops_early": "in ~1/8 of threads", "thundering_herd": "shape 'herd'", "eviction_pressure": "pool of sizes > capacity in every scenario"},
-        "simulated_time": "not applicable (no clock); scheduling points = every Mutex acquire/release, thread spawn/join",
+        "fault_kinds": {"client_crash_inside_plan_generation": probes.get("client_crash_inside_plan_generation", 0), "client_stops_early": "in ~1/8 of threads", "thundering_herd": "shape 'herd'", "eviction_pressure": "pool of sizes > capacity in every scenario", "clock_jump_idle_period_sequential": (seq.get("clock_jumps_injected") if seq else 0), "client_crash_sequential_real_mutex": (seq.get("client_crashes_injected") if seq else 0), "client_crash_fault_in_shuttle_flavours": [f.get("client_crash_fault", "enabled") for f in frags]},
+        "simulated_time": "shuttle flavours: no clock (scheduling points = every Mutex acquire/release, thread spawn/join, hook H7); sequential histories: idle periods injected as jumps of an owned clock, %s simulated idle seconds in this run" % (seq.get("simulated_idle_seconds") if seq else 0),
         "runs_per_hour": int(ex / max(wall, 1e-9) * 3600),
         "real_components": ["get_or_generate_source_block_encoding_plan", "SourceBlockEncoder::new", "SourceBlockEncodingPlan::generate", "plan replay", "the cache's lookup/insert/eviction code"],
         "stub_components": ["thread scheduler (shuttle)", "Mutex/Arc/lazy static (shuttle's, via hook H1; the OnceLock initialisation itself is replaced)", "request workload (seeded generator)", "uncached single-thread reference encoders (hook H3)"],
